@@ -96,12 +96,23 @@ func (o *vectorOperator) initOutputs(ctx context.Context) error {
 	var highCardSide []labels.Labels
 	var errChan = make(chan error, 1)
 	go func() {
+		defer close(errChan)
+		// A panic while loading the series of the left side must not take
+		// down the process: report it as the error of the query.
+		defer func() {
+			if r := recover(); r != nil {
+				if err, ok := r.(error); ok {
+					errChan <- errors.Wrapf(err, "unexpected error")
+				} else {
+					errChan <- errors.Newf("unexpected error: %v", r)
+				}
+			}
+		}()
 		var err error
 		highCardSide, err = o.lhs.Series(ctx)
 		if err != nil {
 			errChan <- err
 		}
-		close(errChan)
 	}()
 
 	lowCardSide, err := o.rhs.Series(ctx)
